@@ -33,6 +33,11 @@ def run_one(bid):
             env = dict(os.environ, VERIF_REPO=d, VERIF_EVIDENCE_DIR=os.path.join(d, "evidence"), VERIF_TIER="quick")
             r = subprocess.run([os.path.join(VERIF, "check"), prop, "--tier", "quick"], capture_output=True, text=True, env=env, timeout=3600)
             o = r.stdout + r.stderr
+            if r.returncode == 2 and "VIOLATION" not in o and prop in meta.get("analysis_broken_expected", {}):
+                out.append("%s exit 2 (documented: %s)" % (prop, meta["analysis_broken_expected"][prop]))
+                if status == "OK":
+                    status = "EXIT2-DOCUMENTED"
+                continue
             if r.returncode != 0 or "VIOLATION" in o:
                 status = "FAIL"
                 out.append("%s exit %d" % (prop, r.returncode))
@@ -59,11 +64,17 @@ def main():
     with ThreadPoolExecutor(max_workers=j) as ex:
         for bid, st, detail in ex.map(run_one, ids):
             print("%-50s %s" % (bid, st))
+            if st == "EXIT2-DOCUMENTED":
+                doc = doc + 1 if "doc" in dir() else 1
+                for l in detail.splitlines():
+                    print("    " + l)
+                continue
             if st != "OK":
                 bad += 1
                 for l in detail.splitlines():
                     print("    " + l)
-    print("%d/%d silent" % (len(ids) - bad, len(ids)))
+    ndoc = doc if "doc" in dir() else 0
+    print("%d/%d silent, %d analysis-broken as documented (exit 2, no VIOLATION), %d failing" % (len(ids) - bad - ndoc, len(ids), ndoc, bad))
     sys.exit(1 if bad else 0)
 
 
